@@ -18,8 +18,7 @@ let mp_chunks (body : n list) (cuts : string) : n list list =
     List.rev !out
   end
 
-let mp_show_state st =
-  let ((parts, flags), fault) = mp_obs st in
+let rec mp_show_obs ((parts, flags), fault) q =
   if fault then "FAULT" else begin
     let show_part ((((((t, name), file), ctype), hdrs), value), fdata) =
       String.concat "|" [
@@ -27,13 +26,30 @@ let mp_show_state st =
         (if hdrs = [] then "-" else String.concat "," (List.map (fun (k, v) -> hex_of_bytes k ^ ":" ^ hex_of_bytes v) hdrs));
         mp_ob value; hex_of_bytes fdata ] in
     let ps = if parts = [] then "-" else String.concat ";" (List.map show_part parts) in
-    let q = mp_params st in
     let qs = if q = [] then "-" else String.concat "," (List.map (fun (k, v) -> mp_ob k ^ "=" ^ mp_ob v) q) in
     ps ^ " F" ^ string_of_z (match flags with N0 -> Z0 | Npos p -> Zpos p) ^ " Q" ^ qs
   end
 
+let mp_show_state st = mp_show_obs (mp_obs st) (mp_params st)
+
+let mp_text_params parts =
+  List.map (fun p -> (p.mpp_name, p.mpp_value)) (List.filter (fun p -> match p.mpp_type with MpText -> true | _ -> false) parts)
+
 let do_mp f =
   match f with
+  | _ :: "ref" :: b :: flags :: body :: _ ->
+    (* the byte-level reference semantics (Spec/SMultipart.v) and its premise bit *)
+    let (pl, ok) = mp_aref (bytes_of_hex b) (n_of_int (int_of_string flags)) (bytes_of_hex body) in
+    mp_show_obs (mp_aobs pl) (mp_text_params (mp_aparts pl)) ^ (if ok then " ok" else " hazard")
+  | _ :: "prem" :: b :: flags :: body :: cuts :: _ ->
+    let bb = bytes_of_hex b and fl = n_of_int (int_of_string flags) in
+    let chunks = mp_chunks (bytes_of_hex body) cuts in
+    let whole = List.concat chunks in
+    let st0 = mp_init_flags bb fl in
+    Printf.sprintf "bnd=%d body=%d cr=%d tail=%d tailw=%d all=%d"
+      (b2i (mp_bnd_okb bb)) (b2i (mp_body_okb bb fl whole)) (b2i (mp_no_cr_hazardb bb fl chunks))
+      (b2i (mp_tail_okb (List.fold_left mp_parse st0 chunks))) (b2i (mp_tail_okb (mp_parse st0 whole)))
+      (b2i (mp_premb bb fl chunks))
   | _ :: "run" :: b :: flags :: body :: cuts :: _ ->
     let chunks = mp_chunks (bytes_of_hex body) cuts in
     mp_show_state (mp_run (bytes_of_hex b) (n_of_int (int_of_string flags)) chunks)
